@@ -43,7 +43,7 @@ pub enum GateKind {
     Complex,
     /// phase 1: s · (b0 − c·a0) with c the challenge usable after the first phase
     Chal,
-    /// s · (a0 − p(cur) − p(next) − p(prev)) with p the first plain instance column
+    /// s · (a0 − p(cur) − 2·p(next) − 3·p(prev)) with p the first plain instance column
     InstRot,
     /// s · (a0(next) − a1): when listed first, the first advice query of the constraint system
     /// is a rotated one (the first opening point is then not `x`)
@@ -317,7 +317,10 @@ impl Circuit<F> for FamCircuit {
                         let pc = m.query_instance(col, Rotation::cur());
                         let pn = m.query_instance(col, Rotation::next());
                         let pp = m.query_instance(col, Rotation::prev());
-                        Constraints::with_selector(s, vec![a0 - pc - pn - pp])
+                        Constraints::with_selector(
+                            s,
+                            vec![a0 - pc - pn * F::from(2) - pp * F::from(3)],
+                        )
                     });
                 }
                 GateKind::NextFirst => {
@@ -444,7 +447,7 @@ impl Circuit<F> for FamCircuit {
                             GateKind::InstRot => {
                                 let col = &inst[p.n_committed];
                                 let at = |i: usize| col.get(i).copied().unwrap_or(F::ZERO);
-                                x = at(1) + at(2) + at(0);
+                                x = at(1) + at(2) * F::from(2) + at(0) * F::from(3);
                                 y = r2;
                                 z = r1;
                             }
